@@ -51,6 +51,13 @@ func getTransactionStrategy(request interface{}) (configapi.TransactionStrategy,
 	if !ok {
 		return configapi.TransactionStrategy{}, errors.NewInternal("extracted-the-wrong-extensions")
 	}
+	// The values travel as plain integers: anything outside the enumerations is malformed
+	if _, known := configapi.TransactionStrategy_Synchronicity_name[int32(strategy.Synchronicity)]; !known {
+		return configapi.TransactionStrategy{}, errors.NewInvalid("unknown transaction synchronicity %d", strategy.Synchronicity)
+	}
+	if _, known := configapi.TransactionStrategy_Isolation_name[int32(strategy.Isolation)]; !known {
+		return configapi.TransactionStrategy{}, errors.NewInvalid("unknown transaction isolation %d", strategy.Isolation)
+	}
 	return *strategy, nil
 }
 
